@@ -225,3 +225,103 @@ def _hudi_finish(c, outcome, args, old):
 
 
 _upgrade(STEP + "has_unavailable_dynamic_input", ["C09", "C10", "C02", "C03"], args=dict(self=_hudi_self), finish=_hudi_finish)
+
+
+# ---------------------------------------------------------------- Node.products: the statement behind "my products"
+
+
+class _PKind:
+    def __init__(self, name):
+        self.k = ty.Str.fresh(name + ".kind")
+
+    def kind(self):
+        return self.k
+
+
+class _PGraph:
+    def __init__(self, db):
+        self.db = db
+
+    def node_from_row(self, i, kind, label):
+        cur().event("pr.node_from_row", i=i, nkind=kind, label=label)
+        return ("node", i, kind, label)
+
+
+def _prod_self(args):
+    db = DbStub("db", [("SELECT i, kind, label FROM node WHERE creator = ?", ty.TupleOf(ty.Int, ty.Str, ty.Str))])
+    n = fresh_node(common.Node, None, "self")
+    n._fields["graph"] = _PGraph(db)
+    return n
+
+
+PRODUCTS_ALL = "SELECT i, kind, label FROM node WHERE creator = ? ORDER BY kind, label"
+PRODUCTS_KIND = "SELECT i, kind, label FROM node WHERE creator = ? AND kind = ? ORDER BY kind, label"
+
+
+def _products_finish(c, outcome, args, old):
+    """The rows whose creator column is this node (of the kind asked for, if one is given), in the order of the unique
+    key (kind, label) -- C02: an enumeration order that does not depend on insertion order."""
+    if outcome[0] not in ("return", "cut"):
+        return
+    st = [e for e in c.trace if e.kind == "sql"]
+    nt = args["node_type"]
+    if isinstance(nt, sym.SymOpt):
+        nt = sym.resolve(nt)  # the case this path took (the function tests `node_type is not None`)
+    with_kind = nt is not None
+    want = PRODUCTS_KIND if with_kind else PRODUCTS_ALL
+    ok = len(st) == 1 and sqlfront.match_key(st[0].sql) == sqlfront.match_key(want) \
+        and isinstance(st[0].args, (tuple, list)) and len(st[0].args) == (2 if with_kind else 1)
+    eqs = []
+    if ok:
+        eqs.append(tm.Eq(I(st[0].args[0]), I(args["self"].i)))
+        if with_kind:
+            eqs.append(tm.Eq(S(st[0].args[1]), S(nt.k)))
+    c.prove("selects_the_rows_created_by_this_node_in_key_order", tm.And(tm.mk_bool(ok), *eqs), kind="sql",
+            detail=str([e.sql for e in st]))
+
+
+def _products_iteration(e):
+    i, kind, label = e.current
+    made = [ev for ev in e.iter_trace if ev.kind == "pr.node_from_row"]
+    ys = [ev for ev in e.iter_trace if ev.kind == "yield"]
+    if len(made) != 1 or len(ys) != 1 or ys[0].value[0] != "node":
+        return False
+    return sym.wrap_bool(tm.And(tm.Eq(I(made[0].i), I(i)), tm.Eq(S(made[0].nkind), S(kind)), tm.Eq(S(made[0].label), S(label)),
+                                tm.mk_bool(ys[0].value[1] is made[0].i)))
+
+
+from vc import sym  # noqa: E402
+
+_pc = _upgrade("stepup/core/trellis.py::Node.products", ["C09", "C02", "C10"],
+               args=dict(self=_prod_self, node_type=ty.Opt(ty.Make(_PKind))), finish=_products_finish,
+               loops={0: LoopSpec(step_post=_products_iteration)})
+
+
+# ---------------------------------------------------------------- Step.set_resources (C12: what the resource gate reads)
+
+from contracts import C08_claims  # noqa: E402,F401  (declares the stand-in upgraded here)
+
+
+def _sr_finish(c, outcome, args, old):
+    """The stored claims of this step are replaced: every old row of the step is deleted first; None stores nothing;
+    otherwise one row (this step, name, units) per declared resource is inserted."""
+    if outcome[0] != "return":
+        return
+    st = [e for e in c.trace if e.kind in ("sql", "sql.many")]
+    K = sqlfront.match_key
+    first_ok = bool(st) and st[0].kind == "sql" and K(st[0].sql) == K("DELETE FROM step_resource WHERE node = ?") \
+        and isinstance(st[0].args, tuple) and len(st[0].args) == 1
+    c.prove("old_claims_of_this_step_are_deleted_first", tm.And(tm.mk_bool(first_ok), *(
+        [tm.Eq(I(st[0].args[0]), I(args["self"].i))] if first_ok else [])), kind="sql", detail=str([e.sql for e in st]))
+    res = args["resources"]
+    if isinstance(res, sym.SymOpt):
+        res = sym.resolve(res)
+    if res is None:
+        c.prove("none_stores_nothing", tm.mk_bool(len(st) == 1), kind="sql")
+        return
+    ok = len(st) == 2 and st[1].kind == "sql.many" and K(st[1].sql) == K("INSERT INTO step_resource VALUES (?, ?, ?)")
+    c.prove("declared_claims_are_inserted", tm.mk_bool(ok), kind="sql", detail=str([e.sql for e in st[1:]]))
+
+
+_upgrade(STEP + "set_resources", ["C12", "C09"],
+         args=dict(self=C03_rerun._self, resources=ty.Opt(ty.MapOf(ty.Str, ty.Int))), finish=_sr_finish)
